@@ -44,6 +44,18 @@ fn fn_specs() -> Vec<FnSpec> {
             min: 1,
             max: Some(1),
         },
+        // the earlier of the pair: its partner is not in its captured scope, it is found through the caller's names
+        FnSpec {
+            class: "mutually-recursive-earlier",
+            setup: &["ev = n => if n == 0 then true else od(n - 1)", "od = n => if n == 0 then false else ev(n - 1)"],
+            expr: "ev",
+            min: 1,
+            max: Some(1),
+        },
+        FnSpec { class: "late-bound-data", setup: &["scale_by = x => x * factor_late", "factor_late = 3"], expr: "scale_by", min: 1, max: Some(1) },
+        FnSpec { class: "late-bound-predicate", setup: &["above = x => x > bar_late", "bar_late = 2"], expr: "above", min: 1, max: Some(1) },
+        FnSpec { class: "late-bound-helper-index", setup: &["tag = (x, i) => [x, i, helper_late(i)]", "helper_late = i => i * 2"], expr: "tag", min: 2, max: Some(2) },
+        FnSpec { class: "reducer-late-bound", setup: &["acc_late = (acc, x) => acc + weigh_late(x)", "weigh_late = x => if typeof(x) == \"number\" then x else 0"], expr: "acc_late", min: 2, max: Some(2) },
         FnSpec { class: "named-in-do", setup: &["mk = do {\n  rec = n => if n <= 0 then 0 else 1 + rec(n - 1)\n  return rec\n}"], expr: "mk", min: 1, max: Some(1) },
         FnSpec { class: "curried", setup: &["adder = a => b => a + b"], expr: "adder(10)", min: 1, max: Some(1) },
         FnSpec { class: "builtin-exact1", setup: &[], expr: "abs", min: 1, max: Some(1) },
